@@ -202,17 +202,22 @@ def regenerate_leaves():
     return nop2coq.write(os.path.join(COQ, 'Gen.v'), BUILD)
 
 
-def check_proofs(ctx, files):
+def check_proofs(ctx, files, bridge=True):
     """regenerates the translated leaf definitions, then (re)builds Bridge.v (model = translated code) and the given
     Properties files; returns (obligations, discharged, detail)"""
     obligations, discharged, detail = 0, 0, []
     tr_ok, tr_why = regenerate_leaves()
-    files = ['Bridge.v'] + list(files)
+    if bridge:
+        files = ['Bridge.v'] + list(files)
+    else:
+        tr_ok, tr_why = True, ''       # the property does not depend on the translated leaves
     targets = [f[:-2] + '.vo' for f in files]
     ok, lg = coq_make(targets)
     if not tr_ok:
         ok = False
         lg = 'tools/nop2coq.py could not translate the current headers: %s\n' % tr_why + lg
+    elif tr_why:
+        ctx.notes.append('translator: outside the translated C++ subset, tied by correspondence only on this run: ' + tr_why)
     for f in files:
         names = theorem_names(os.path.join(COQ, f)) if f != 'Bridge.v' else re.findall(r'^Lemma\s+(\w+)', open(os.path.join(COQ, f)).read(), re.M)
         obligations += len(names)
